@@ -1,4 +1,5 @@
 import BufProofs.Props.C17
+import BufProofs.Props.C17Archive
 #print axioms BufProofs.C17.targets_exactly_once
 #print axioms BufProofs.C17.imports_once_when_requested
 #print axioms BufProofs.C17.imports_never_otherwise
@@ -14,3 +15,6 @@ import BufProofs.Props.C17
 #print axioms BufProofs.C17.insertion_needs_target
 #print axioms BufProofs.C17.duplicate_output_is_error
 #print axioms BufProofs.C17.duplicate_alias_counterexample
+#print axioms BufProofs.C17.archive_model_conservative
+#print axioms BufProofs.C17.archive_writes_in_own_output
+#print axioms BufProofs.C17.duplicate_in_archive_is_error
